@@ -79,7 +79,7 @@ SCALARS = {
     'unsigned long long': 'unsigned long long', 'long long': 'long long', 'signed char': 'signed char',
     'float': 'float', 'double': 'double', 'time_t': 'long', 'uintptr_t': 'uintptr_t', 'intptr_t': 'intptr_t',
     'ptrdiff_t': 'ptrdiff_t', 'std::ptrdiff_t': 'ptrdiff_t', 'off_t': 'long', 'pid_t': 'int', 'socklen_t': 'unsigned int',
-    'iovec': 'struct iovec', 'timezone': 'struct timezone', 'tm': 'struct tm', 'epoll_event': 'struct epoll_event', 'fd_set': 'fd_set', '__fd_mask': 'long', '__sigset_t': 'sigset_t', 'sigset_t': 'sigset_t', 'timeval': 'struct timeval', 'timespec': 'struct timespec',
+    'iovec': 'struct iovec', 'timezone': 'struct timezone', 'tm': 'struct tm', 'epoll_event': 'struct epoll_event', 'fd_set': 'fd_set', '__fd_mask': 'long', '__sigset_t': 'sigset_t', 'sigset_t': 'sigset_t', 'sigaction': 'struct sigaction', 'siginfo_t': 'siginfo_t', 'timeval': 'struct timeval', 'timespec': 'struct timespec',
     '__uint8_t': 'uint8_t', '__uint16_t': 'uint16_t', '__uint32_t': 'uint32_t', '__uint64_t': 'uint64_t',
 }
 INT_RANGE = {
@@ -1714,7 +1714,7 @@ class Unit:
         if self.models and self.models.is_model_type(ct) and not is_ref and '*' not in ct:
             self.models.local_object(self, v, ct, name, ks, p)
             return
-        SYS = ('struct iovec', 'struct timeval', 'struct timespec', 'struct timezone', 'struct tm', 'struct epoll_event', 'fd_set', 'sigset_t')
+        SYS = ('struct iovec', 'struct timeval', 'struct timespec', 'struct timezone', 'struct tm', 'struct epoll_event', 'fd_set', 'sigset_t', 'struct sigaction')
         if ct.startswith('struct ') and not ct.strip().endswith('*') and not is_ref and '[' not in txt and ct not in SYS:
             rec = ct[len('struct '):].strip()
             ce = self.strip_tmp(ks[0]) if ks else None
@@ -1938,6 +1938,10 @@ class Unit:
             if key[0] in ('contract', 'loop', 'ghost') and key not in self.used_keys:      # (call_as routes are optional: a missing recursive call shows up as a failed postcondition)
                 if key[0] == 'contract' and key[1] not in self.emitted_protos:
                     if self.spec.get(('optional', key[1])): continue
+                    if self.spec.get(('stub', key[1])):
+                        # the contract of a callee stub that the (changed) code no longer calls: nothing to attach it to; what the call
+                        # used to establish is then missing from the ghost state, so the caller's postcondition fails rather than passes
+                        self.dropped.append('stub contract %s: no call left in the extracted code' % key[1]); continue
                 if key[0] in ('loop', 'ghost') and re.search(r'__(find|find_if|remove_if|cvwait|cvwait_bind|lambda)\d+$', key[1]) and key[1] not in self.emitted_funcs:
                     # annotations of a printer-generated helper (algorithm / wait / lambda) that the (changed) code no longer gives rise to:
                     # dropped; what the helper's ghost code used to establish is then missing, so dependent obligations fail rather than pass
